@@ -173,6 +173,11 @@ func (x *Exec) objVal(obj types.Object, env *Env) Val {
 		if g == nil {
 			x.fail("no SSA global for %s", o.Name())
 		}
+		if at, isArr := under(g.Type().(*types.Pointer).Elem()).(*types.Array); isArr {
+			// a package-level array is used through its region (indexing in contracts, slicing in code)
+			gp := x.globalPtr(g)
+			return Val{T: at, L: gp.L}
+		}
 		if v, ok := x.eng.globalValue(x, g); ok {
 			return v
 		}
@@ -387,6 +392,11 @@ func (x *Exec) trIndex(t *CIdx, env *Env) Val {
 		return Val{T: b.GM.Elem, S: sel(b.S, i.S), GM: x.eng.ghostMapInfoOfType(x, b.GM.Elem)}
 	}
 	switch bt := under(b.T).(type) {
+	case *types.Array:
+		if b.L != nil && b.L.ArrRegion != "" {
+			key, srt := x.elemKey(bt.Elem())
+			return Val{T: bt.Elem(), S: sel(sel(x.heapGet(env.cur, key, srt), b.L.ArrRegion), i.S)}
+		}
 	case *types.Slice:
 		key, srt := x.elemKey(bt.Elem())
 		return Val{T: bt.Elem(), S: sel(sel(x.heapGet(env.cur, key, srt), app("s_reg", b.S)), app("sidx", app("s_off", b.S), i.S))}
